@@ -572,6 +572,16 @@ pub mod rewrite {
       imported_module_loc: dummy_location,
     });
     compute_module_diff_edits(&state.heap, module_reference, ast, &changed_ast)
+      .into_iter()
+      .map(|(loc, text)| {
+        // An import appended after existing imports must start on its own line.
+        if loc.start == loc.end && loc.start != Position(0, 0) {
+          (loc, format!("\n{text}"))
+        } else {
+          (loc, text)
+        }
+      })
+      .collect()
   }
 }
 
